@@ -46,8 +46,13 @@ ASSUMPTIONS = [
 
 # ================================================================================================ ulist
 
-ELEMS = [1, 2, 3, 'a']
-SINGLES = [1, 2, 3, 'a', 4, 'zz']          # 4 and 'zz' are never members
+ELEMS = [1, 2, 3, 'a', 'NAN']           # 'NAN' stands for ONE float('nan') object (hashable, a member by identity like in any Python list)
+SINGLES = [1, 2, 3, 'a', 4, 'zz', 'NAN']          # 4 and 'zz' are never members
+_NAN = float('nan')
+
+
+def _el(x):
+    return _NAN if isinstance(x, str) and x == 'NAN' else x
 _LISTS = {}
 
 
@@ -71,7 +76,7 @@ def _dedup(xs):
 
 def _same(got, exp):
     """same elements in the same order (and of the same type: 1 is not True, not 1.0)"""
-    return len(got) == len(exp) and all(type(a) is type(b) and a == b for a, b in zip(got, exp))
+    return len(got) == len(exp) and all(a is b or (type(a) is type(b) and a == b) for a, b in zip(got, exp))
 
 
 _UOPS = [
@@ -93,7 +98,7 @@ def _uref(what, ref, xs):
 def check_ulist(case):
     from pyg_base import ulist
     out = Out()
-    xs = list(case['u'])
+    xs = [_el(x) for x in case['u']]
     rmax = case['rmax']
     ref = _dedup(xs)
     src = list(xs)
@@ -124,6 +129,7 @@ def check_ulist(case):
     for ri, (rkind, x) in enumerate(rights):
         out.sub()
         u = ulist(list(xs))
+        x = [_el(v) for v in x]
         if rkind == 'list':
             r = list(x)
         else:
@@ -151,15 +157,16 @@ def check_ulist(case):
                 out.viol('operand-mutated', '%s changed the right operand from %r to %r' % (label, rsnap, list(r)), op=sym, right=rkind, side='right')
                 r = rtype(list(rsnap))
             if what == 'union':
-                out.cls('union-same' if exp == ref else 'union-new')
+                out.cls('union-same' if _same(exp, ref) else 'union-new')
             elif what == 'diff':
-                out.cls('diff-same' if exp == ref else ('diff-empty' if not exp else 'diff-some'))
+                out.cls('diff-same' if _same(exp, ref) else ('diff-empty' if not exp else 'diff-some'))
             else:
-                out.cls('inter-all' if exp == ref else ('inter-empty' if not exp else 'inter-some'))
-            if exp != ref and exp != rsnap:
+                out.cls('inter-all' if _same(exp, ref) else ('inter-empty' if not exp else 'inter-some'))
+            if not _same(exp, ref) and not _same(exp, rsnap):
                 out.nontrivial('%s%d' % (sym, ri))
 
     for e in SINGLES:
+        e = _el(e)
         out.sub()
         u = ulist(list(xs))
         present = e in ref
@@ -179,7 +186,7 @@ def check_ulist(case):
             if type(u) is not ulist or not _same(list(u), ref):
                 out.viol('operand-mutated', '%s changed the left operand from %r to %r' % (label, ref, list(u)), op=sym, right='single', side='left')
                 u = ulist(list(xs))
-            if exp != ref and exp != [e]:
+            if not _same(exp, ref) and not _same(exp, [e]):
                 out.nontrivial('%s:%r' % (sym, e))
         out.cls('single-present' if present else 'single-absent')
     # ---- a tuple is a hashable single ELEMENT, not a list of elements: ulists holding tuples, a tuple as the right operand
@@ -660,7 +667,13 @@ def check_call(case):
     Dict = _classes()['Dict']
     variant = case['variant']
     names, params = _plan(case)
-    src = {n: _source(n, params[n]) for n in names}
+    if variant == 'defaulted':
+        # every parameter naming ANOTHER DEFINITION carries a Python default: it is a dependency all the same (the mapping's value wins over the default)
+        params = {n: [x for x in ps if x not in names] + [x for x in ps if x in names] for n, ps in params.items()}
+        _srcd = lambda name, ps: 'lambda %s: (%r, %s)' % (', '.join(x if x not in names else "%s='dflt'" % x for x in ps), name, ''.join(x + ', ' for x in ps))
+        src = {n: _srcd(n, params[n]) for n in names}
+    else:
+        src = {n: _source(n, params[n]) for n in names}
     funcs = {n: eval(src[n], {}) for n in names}
     consts = {'q': 20} if variant == 'const' else {}
     P = 'p'
@@ -776,10 +789,10 @@ def gen_calls(tier):
     quick = tier == 'quick'
     for m in range(1, 5):
         graphs = list(_digraphs(m))
-        for variant in ('plain', 'override', 'const', 'keymember', 'keydef'):          # variant outside the graph loop: neighbouring cases cost the same
+        for variant in ('plain', 'override', 'const', 'keymember', 'keydef', 'defaulted'):          # variant outside the graph loop: neighbouring cases cost the same
             if m == 4 and quick and variant != 'plain':
                 continue
-            for cname in (('Dict', 'SubDict') if ((m <= 3 and variant[:3] != 'key') or (variant == 'plain' and not quick)) else ('Dict',)):
+            for cname in (('Dict', 'SubDict') if ((m <= 3 and variant[:3] != 'key' and variant != 'defaulted') or (variant == 'plain' and not quick)) else ('Dict',)):
                 for deps in graphs:
                     yield {'m': m, 'deps': deps, 'variant': variant, 'cls': cname}
     if tier != 'quick':
